@@ -78,6 +78,8 @@ static void skinny128_ctr_vec128_cleanup(Skinny128CTR_t *ctr)
     }
 }
 
+static void skinny128_ctr_vec128_reset_keystream(Skinny128CTRVec128Ctx_t *ctx);
+
 static int skinny128_ctr_vec128_set_key
     (Skinny128CTR_t *ctr, const void *key, unsigned size)
 {
@@ -95,7 +97,7 @@ static int skinny128_ctr_vec128_set_key
         return 0;
 
     /* Reset the keystream */
-    ctx->offset = SKINNY128_CTR_BLOCK_SIZE;
+    skinny128_ctr_vec128_reset_keystream(ctx);
     return 1;
 }
 
@@ -116,7 +118,7 @@ static int skinny128_ctr_vec128_set_tweaked_key
         return 0;
 
     /* Reset the keystream */
-    ctx->offset = SKINNY128_CTR_BLOCK_SIZE;
+    skinny128_ctr_vec128_reset_keystream(ctx);
     return 1;
 }
 
@@ -135,7 +137,7 @@ static int skinny128_ctr_vec128_set_tweak
         return 0;
 
     /* Reset the keystream */
-    ctx->offset = SKINNY128_CTR_BLOCK_SIZE;
+    skinny128_ctr_vec128_reset_keystream(ctx);
     return 1;
 }
 
@@ -157,6 +159,44 @@ STATIC_INLINE void skinny128_ctr_increment
         inc += ptr[0];
         ptr[0] = (uint8_t)inc;
         inc >>= 8;
+    }
+}
+
+/* Decrement a specific column in an array of row vectors */
+STATIC_INLINE void skinny128_ctr_decrement
+    (SkinnyVector4x32_t *counter, unsigned column, unsigned dec)
+{
+    uint8_t *ctr = ((uint8_t *)counter) + column * 4;
+    uint8_t *ptr;
+    unsigned index;
+    for (index = 16; index > 0; ) {
+        --index;
+        ptr = ctr + (index & 0x0C) * 4;
+#if SKINNY_LITTLE_ENDIAN
+        ptr += index & 0x03;
+#else
+        ptr += 3 - (index & 0x03);
+#endif
+        dec = ptr[0] - dec;
+        ptr[0] = (uint8_t)dec;
+        dec = (dec >> 8) & 1;
+    }
+}
+
+/* Resets the keystream after a key or tweak change.  As in the generic
+   back end, the rest of the current keystream block is discarded and
+   the next block continues with the following counter value: the lane
+   counters are wound back over the whole blocks of the current batch
+   that have not been used yet */
+static void skinny128_ctr_vec128_reset_keystream(Skinny128CTRVec128Ctx_t *ctx)
+{
+    if (ctx->offset < SKINNY128_CTR_BLOCK_SIZE) {
+        unsigned used = (ctx->offset + SKINNY128_BLOCK_SIZE - 1) / SKINNY128_BLOCK_SIZE;
+        unsigned unused = (SKINNY128_CTR_BLOCK_SIZE / SKINNY128_BLOCK_SIZE) - used;
+        unsigned lane;
+        for (lane = 0; lane < 4; ++lane)
+            skinny128_ctr_decrement(ctx->counter, lane, unused);
+        ctx->offset = SKINNY128_CTR_BLOCK_SIZE;
     }
 }
 
